@@ -223,6 +223,7 @@ def run(tier, seed, build):
         fn = next(n for n in ast.walk(tree) if isinstance(n, (ast.FunctionDef, ast.AsyncFunctionDef))
                   and n.name == c.name and n.lineno == c.fn.lineno)
         anywhere = binder.bound_anywhere(tree)
+        module_names = binder.module_bound(tree)
         if any(isinstance(n, (ast.Assign, ast.For, ast.With, ast.NamedExpr, ast.AugAssign, ast.AnnAssign)) for n in ast.walk(fn)):
             res.nontrivial.add(common.digest(c.fn_src))
         warned = {}
@@ -295,6 +296,8 @@ def run(tier, seed, build):
                         cause = "getattr-family-object"
                     elif same_statement_rebinds(fn, root, a.node.lineno, a.node.col_offset):
                         cause = "rebound-by-target-of-the-same-statement"
+                    elif root in module_names:
+                        cause = "local-named-like-module-level-name-or-builtin"
                     elif store_rebinding_base(fn, root, a.node.lineno):
                         cause = "base-rebound-by-attribute-or-item-store"
                     else:
